@@ -13,7 +13,7 @@ package cstate
 // from the block meta of that height, the application hash from the app-hash record of that height,
 // the validator sets and parameters from the records the state record points to.
 //@ func loadStateAtHeight(db kaidb.Database, height uint64) (r *LatestBlockState)
-//@   for C14 C01
+//@   for C14 C01 C03
 //@   modifies *
 //@   ensures [blockMetaFields] r != nil ==> r.LastBlockID == old(rawdb.metaAt(db, height).BlockID) && r.LastBlockTime == old(rawdb.metaAt(db, height).Header.Time) && r.LastBlockHeight == old(rawdb.metaAt(db, height).Header.Height) && r.LastBlockTotalTx == old(rawdb.metaAt(db, height).Header.NumTxs)
 //@   ensures [appHashOfThatHeight] r != nil ==> r.AppHash == rawdb.appHashAt(db, height)
